@@ -132,7 +132,7 @@ class Worker:
             self.proc.kill()
 
 
-def run_tasks(tasks, n_workers=None, deadline=None, progress=None):
+def run_tasks(tasks, n_workers=None, deadline=None, progress=None, prepare=None):
     """
     Execute tasks ({'hash_seed': optional str, ...}) on a pool of workers.
     Tasks that pin a hash seed only go to a worker started with that seed.
@@ -173,6 +173,10 @@ def run_tasks(tasks, n_workers=None, deadline=None, progress=None):
                     except queue.Empty:
                         return
                 task = dict(task)
+                if prepare is not None:
+                    task = prepare(task)
+                    if task is None:
+                        return
                 task["hash_seed_used"] = hs
                 try:
                     res = worker.call(task)
